@@ -831,6 +831,8 @@ class Sim:
         return ("GEN " + h.hexdigest()[:24] + "\n").encode()
 
     def _write(self, proc, path, srcs, tag=""):
+        if tag.startswith("$"):
+            tag = "env=" + str(proc.env.get(tag[1:], "<unset>"))
         contents = [self._read(proc, p) for p in srcs]
         self._write_data(proc, path, self._derive(proc, tag, path, contents))
 
